@@ -170,6 +170,12 @@ class EncodeState:
                     odxraise(
                         f"The value '{internal_value!r}' cannot be encoded using "
                         f"{bit_length} bits.", EncodeError)
+            elif internal_value != 0:
+                # without any bits, nothing but zero can be represented
+                odxraise(
+                    f"The value '{internal_value!r}' cannot be encoded using "
+                    f"{bit_length} bits.", EncodeError)
+                internal_value = 0
 
             if base_type_encoding == Encoding.ONEC:
                 # one-complement
